@@ -105,6 +105,33 @@ def run(ctx):
                         if not np.isfinite(tab[p, k]) or abs(tab[p, k] - ref) > 1e-8 * max(1.0, abs(ref)):
                             ctx.violation("monitor", "table entry %r for NW=%d, log-det %.0f is not the finite log-density %r" % (float(tab[p, k]), n, tl, ref),
                                           {"n": n, "logdet": tl, "seed": ctx.seed})
+        # tables of many thousand points (more than the usual block sizes of vectorised code): every row must be scored
+        for Tn in ([4097, 6146] + ([10001, 66000] if ctx.thorough else [])):
+            n = 2
+            ua = arguments.UserArguments(sparsity_weight=0.1, iteration_limit=1, label_switching_cost=1.0, min_cluster_size=1,
+                                         min_meaningful_covariance=0, num_clusters=3, num_processors=1, biased_covariance=False, window_size=1)
+            data = rng.normal(size=(Tn, n)) * 2.0 + 1.0
+            ms = model_state.ModelState.empty_model(ua, data)
+            for k, c in enumerate(ms.clusters):
+                a = rng.normal(size=(n + 3, n))
+                c.train_inverse = a.T @ a / (n + 3) + 0.3 * (k + 1) * np.eye(n)
+                c.stacked_data_mean = rng.normal(size=n) + k
+            ctx.count("table-large")
+            ctx.mark_nontrivial(("table-large", Tn))
+            with ctx.guard("all_points_all_clusters_log_likelihood", {"points": Tn}):
+                tab = lk.all_points_all_clusters_log_likelihood(ms, data)
+                if tab.shape != (Tn, 3):
+                    ctx.violation("monitor", "table of %d points has shape %s" % (Tn, tab.shape), {"points": Tn})
+                    continue
+                for k, c in enumerate(ms.clusters):
+                    d = data - c.stacked_data_mean
+                    q = np.einsum("ij,jk,ik->i", d, c.train_inverse, d)
+                    ref = 0.5 * (np.linalg.slogdet(c.train_inverse)[1] - q - n * np.log(2 * np.pi))
+                    bad = np.nonzero(~np.isclose(tab[:, k], ref, rtol=1e-9, atol=1e-9))[0]
+                    if len(bad):
+                        ctx.violation("monitor", "table of %d points: entry (%d,%d) is %r, the log-density is %r (%d entries of this column are wrong)"
+                                      % (Tn, int(bad[0]), k, float(tab[bad[0], k]), float(ref[bad[0]]), len(bad)), {"points": Tn, "seed": ctx.seed})
+                        break
         # the per-point values of the RESULT (main_loop._compute_log_likelihood_by_cluster) on fitted states whose MRFs are
         # ill-conditioned (sensors in very different units: eigenvalues spread over up to 12 orders of magnitude) or have
         # determinants outside the double range: one value per labelled point, the log-density under the point's own cluster
